@@ -76,10 +76,10 @@ manifest = {
  "version": 1,
  "setup_cmd": "cd /verif/harness && CARGO_NET_OFFLINE=true cargo build --release --offline && ./target/release/vcheck selftest",
  "hooks": {
-   "guard": "verif-hooks (cargo feature of tower-resilience-core, forwarded by tower-resilience-retry and tower-resilience-adaptive)",
-   "enable": "/verif/harness/Cargo.toml depends on /repo/crates/* by path with features = [\"verif-hooks\"] on core, retry and adaptive; every ./check rebuilds them from /repo's working tree",
+   "guard": "verif-hooks (cargo feature of tower-resilience-core, forwarded by tower-resilience-retry, tower-resilience-adaptive and tower-resilience-coalesce)",
+   "enable": "/verif/harness/Cargo.toml depends on /repo/crates/* by path with features = [\"verif-hooks\"] on core, retry, adaptive and coalesce; every ./check rebuilds them from /repo's working tree",
    "baseline_off_cmd": "cd /repo && cargo nextest run --workspace --no-fail-fast --tool-config-file pb:/w/lib/nextest.toml --profile pb --test-threads 8 --offline",
-   "source_commits": ["8e75cc7"],
+   "source_commits": ["8e75cc7", "8a0183c"],
    "add_only": True,
  },
  "engines": [
